@@ -25,3 +25,11 @@ Definition run_datelex (kind : Z) (v11 : bool) (s : list Z) : list Z :=
   | 5 => lex_gMonth s | 6 => lex_gDay s | 7 => lex_gMonthDay s | 8 => lex_duration 0 s | 9 => lex_duration 1 s
   | _ => lex_duration 2 s
   end.
+
+(* ---- the raw string through the whiteSpace facet collapse (Whitespace.v), then the recogniser:
+   kinds 0..6 as run_lex, 100 + k as run_datelex k (XSD 1.0 numbering); 1 = in the lexical space ---- *)
+From EP Require Import C10.Whitespace.
+Definition run_ws (k : Z) (raw : str) : Z :=
+  if k =? 6 then run_lex 6 (filter (fun c => negb (c =? 32)) (collapse raw))   (* B64S ::= B64 #x20? *)
+  else if k <? 100 then run_lex k (collapse raw)
+  else match run_datelex (k - 100) false (collapse raw) with [] => 0 | _ => 1 end.
